@@ -367,7 +367,7 @@ class ListingBase(Machine):
         same_file = c % 3 == 2 and self.rel is not None and getattr(self, 'data', None) is not None
         if same_file:
             cand = [self.rel]            # the very file the main reader is on
-        elif c % 3 == 1:
+        elif c % 3 == 1 or (c % 3 == 0 and self.ctx.knobs.get('short_bias')):
             # same simulator family, another file (same column names, another layout)
             cand = [f for f in cat if f.split('/')[0] == mine and f != self.rel and
                     len(image(f)) < 450000]
@@ -925,8 +925,12 @@ class HistoryMachine(ListingBase):
                 for k_, is_short in enumerate(lst._short):
                     if is_short:
                         span = (poss[k_], poss[k_ + 1] if k_ + 1 < len(poss) else len(self.data))
-                        rn = lst._table[tname].row_name
-                        if any(L.table == tname and (L.row == r or rn[L.row] == rn[r])
+                        rn = list(lst._table[tname].row_name)
+                        # (a name printed twice in the full table means its later row - that is
+                        # the row a short table's line of that name belongs to; the earlier row
+                        # of the same name, reachable by number only, is not asked about)
+                        last = len(rn) - 1 - rn[::-1].index(rn[r]) == r
+                        if any(L.table == tname and (L.row == r or (last and rn[L.row] == rn[r]))
                                for L in locate_rows(self.data, lst, None, span=span,
                                                     allow_dups=True)):
                             nshort += 1
